@@ -6,6 +6,8 @@ h = copy.deepcopy(_c02.HARNESSES[0])
 h['obligations'] = ['round trip: after setState(T), any further setState/comparePopScore and re-activation, setState(T) reproduces the digest recorded at T (SP blocks, reference counts, endorsement lists, applied set; SP best chain when it is not a work tie)',
                     'every failed command group / block / switch is undone exactly (digest equality on failure paths): Execute/UnExecute of AddBlock and AddEndorsement are exact inverses',
                     'SP blocks exist exactly while referenced']
-HARNESSES = [h]
+_rp = _ilu.spec_from_file_location('realspec', os.path.join(os.path.dirname(os.path.abspath(__file__)), '..', 'real', 'spec.py'))
+_real = _ilu.module_from_spec(_rp); _rp.loader.exec_module(_real)
+HARNESSES = [h] + copy.deepcopy(_real.HARNESSES)
 EXPLANATION = _c02.EXPLANATION + ' C01 is decided through the round-trip and rollback digest obligations of this harness.'
-ASSUMPTIONS = _c02.ASSUMPTIONS + ['history independence for histories longer than the explored ones rests on the exact-inverse obligations (an argument, not a solver result)', 'AddVTB, payouts and the real ALT/VBK payload plumbing are outside']
+ASSUMPTIONS = _real.ASSUMPTIONS + _c02.ASSUMPTIONS + ['history independence for histories longer than the explored ones rests on the exact-inverse obligations (an argument, not a solver result)', 'AddVTB, payouts and the real ALT/VBK payload plumbing are outside']
